@@ -32,3 +32,6 @@ def run(rep: Report, repo: Repo, tier: str) -> None:
     from . import misc_rules
     with rep.isolated():
         misc_rules.rule_case_folding(rep, repo, "C10-R7")
+    # default values and help texts are the argument texts of the file as it is on disk (no whole-file rewriting before lexing)
+    with rep.isolated():
+        misc_rules.rule_decode(rep, repo, "C10-R8")
